@@ -184,7 +184,8 @@ def materialise(c, cid, sbroot):
         if e["k"] == "dir":
             files.append({"p": p, "dir": True})
         elif e["k"] == "json":
-            files.append({"p": p, "c": "\n".join(jstr(v) for v in e["vals"]) + "\n"})
+            texts = [jstr(v) for v in e["vals"]] + [json.dumps(untag(v)) for v in e.get("tvals", [])]
+            files.append({"p": p, "c": (" " if n % 2 else "\n").join(texts) + "\n"})
         else:
             files.append({"p": p, "c": module_text(e["mod"], root, n)})
     args = ["-n", "-c"]
@@ -443,6 +444,9 @@ def gen_skeleton(r, deep):
             fid = sb.fid()
             if m["data"]:
                 entry = {"k": "json", "vals": ["%s.%d" % (fid, j) for j in range(r.choice([1, 2]))]}
+                if r.random() < 0.4:
+                    entry["tvals"] = [tag(r.choice([0, 7, -3, True, False, [], [1, "s"], {"k": "v"}, {"b": [1, {"c": False}], "a": 2}, "str"]))
+                                      for _ in range(r.choice([1, 2]))]
             else:
                 entry = {"k": "jq", "mod": {"imports": copy.deepcopy(m["imports"]) if first else [], "defs": make_defs(r, fid)}}
             forms = [r.choice([0, 0, 1])]
@@ -859,6 +863,8 @@ def features(c, obs):
         f.append("~/.jq file present")
     if any(e["p"][:2] == ["home", ".jq"] and len(e["p"]) > 2 for e in c["fs"]):
         f.append("~/.jq directory present")
+    if any("tvals" in e for e in c["fs"]) and obs.get("k") == "ok" and re.search(r'"t": "[nbo]"', json.dumps(obs)):
+        f.append("data values of other JSON types observed")
     if any(e["k"] == "dir" for e in c["fs"]):
         f.append("directory at a candidate path")
     imps = list(m.get("imports", []))
@@ -938,7 +944,7 @@ def witnesses():
     # D13 x D15: a data import between two includes of a file that imports the same alias
     m1d = jq(["lib", "m1d.jq"], [dat("d1", "d")], [("x", 0, "m1d.x", [])])
     out.append(("w-d13-d15", W([d1, d2, m1d], {"imports": [inc("m1d"), dat("d2", "d"), inc("m1d")],
-                                               "defs": [("w", 0, "main.w", [("$d", 0, True, False)])] and [], "refs": [ref("x"), ref("$d")]})))
+                                               "defs": [], "refs": [ref("x"), ref("$d")]})))
     # D15: data variables of an included file
     out.append(("w-d15", W([d1, jq(["lib", "m5.jq"], [dat("d1", "d")], [("dd", 0, "m5.dd", [("$d", 0, True, False)])])],
                           {"imports": [inc("m5")], "defs": [], "refs": [ref("dd"), ref("$d::d")]})))
